@@ -27,7 +27,9 @@ type mnode struct {
 }
 
 var mNames = []string{"a", "B", "name", "x_1", "日本", "if", "unless", "é", "a-b", "N9", "Name", "istanbul", "maſs", "ıd", "mass"}
-var mTexts = []string{"hello", " ", "x{y", "a}b", "{ x", "\n", "'q'", "\"", "日本 text", "{.", "#", "/", "x}", "a }", "😀", "\t-"}
+var mTexts = []string{"hello", " ", "x{y", "a}b", "{ x", "\n", "'q'", "\"", "日本 text", "{.", "#", "/", "x}", "a }", "😀", "\t-",
+	// characters that look like blanks and are ordinary text (only blank, tab, CR and LF are trimmed at the ends of a template)
+	"\f", "\v", "x\f", "\u00a0", "\u2028", "\u0085", "\ufeff", "\fy "}
 
 func genMNodes(rnd *rand.Rand, d int) []*mnode {
 	n := rnd.Intn(4)
